@@ -22,13 +22,17 @@ PROPERTY = "C18"
 RULE = (
     "law_derivatives: Hypothesis draws (element type of every 2D/3D kind, 1-12 element organised cell, smooth warp + "
     "affine image) x (law record of NeoHookean/MooneyRivlin/CiarletGeymonat/SaintVenantKirchhoff/HolzapfelOgden with "
-    "random orthonormal fibre frame or per-Gauss-point fibre field / AutoDiff user energies) x homogeneous F = R U "
-    "(stretches 0.6..1.6, random R) x direction dF x superposed rotation Q; non-trivial = |F-I|>0.05, R != I, Q != I "
-    "and dE = sym(F^T dF) != 0. autodiff: same laws restated in jax on homogeneous and smooth non-homogeneous states "
-    "with J>0. operators/system: operator x element type x law x random smooth states (u_n, u_{n+1}, v) x direction d; "
-    "non-trivial = non-zero stress state and tangent. energy_conservation: free-motion midpoint runs (gonzalez / "
-    "quadrature) x law x mesh x initial velocity x dt x 20-100 steps; non-trivial = converged run with E0>0 and a "
-    "strain-energy exchange > 1e-4 E0. distinct = sha1 of the serialised case."
+    "random orthonormal fibre frame or per-Gauss-point fibre field / AutoDiff user energies yeoh, fung, fibre) x "
+    "homogeneous F = R U (stretches 0.6..1.6 on a 0.1 grid, random R) x direction dF x superposed rotation Q; "
+    "non-trivial = |F-I|>0.05, R != I, Q != I and dE = sym(F^T dF) != 0. law_grid / operator_grid: one case per "
+    "(law, element type) and per (operator, element type) pair, all pairs enumerated, remaining parameters derived "
+    "from VERIF_SEED. autodiff: the five shipped laws restated in jax on homogeneous and smooth non-homogeneous states "
+    "with det F>0.1. operators / system: operator (or stress option x time scheme x viscosity x active stress) x "
+    "element type x law x random smooth states (u_n, u_{n+1}, v, a) x direction d; non-trivial = non-zero residual, "
+    "tangent and step. energy_conservation: free-motion midpoint runs (gonzalez / adaptive quadrature / fixed "
+    "quadrature with a quadratic energy) x law x mesh x initial state and velocity x dt in 0.02..0.4 x 20-100 steps, "
+    "free or clamped on one face; non-trivial = converged run with E0>0 and a strain-energy exchange > 1e-4 of the "
+    "energy scale. distinct = sha1 of the serialised case."
 )
 ASSUMPTIONS = [
     "jax (CPU, float64) present for the AutoDiff law; kinematics of the oracle (F, E, Kelvin-Mandel vectors) written "
